@@ -146,25 +146,26 @@ theorem C09_issued_passes_reader_digest_check (doc mso is vd : Cbor) (nsl : List
     (his : fget doc "issuerSigned" = some is)
     (hns : fget is "nameSpaces" = some (.map (nsl.map fun e => (Cbor.text e.1, Cbor.array (e.2.map wireItem)))))
     (hvd : fget mso "valueDigests" = some vd)
-    (hent : ∀ e ∈ nsl, ∃ entries, mget vd (.text e.1) = some (.map entries) ∧ (entries.map (·.1)).Nodup ∧
-      ∀ it ∈ e.2, digestEntry (hashWith ((fget mso "digestAlgorithm").getD (.simple 22))) it ∈ entries)
+    (hent : ∀ e ∈ nsl, ∀ it ∈ e.2, ∃ entries, mget vd (.text e.1) = some (.map entries) ∧ (entries.map (·.1)).Nodup ∧
+      digestEntry (hashWith ((fget mso "digestAlgorithm").getD (.simple 22))) it ∈ entries)
     (hok : ∀ e ∈ nsl, ∀ it ∈ e.2, wf it.toCbor ∧ textOk it.toCbor = true) :
     digestsMatch doc mso = true := by
   unfold digestsMatch
   simp only [his, hns, List.all_eq_true]
   intro x hx
   obtain ⟨e, he, rfl⟩ := List.mem_map.mp hx
-  obtain ⟨entries, hme, hnd, hin⟩ := hent e he
-  simp only [hvd, Option.bind_some, hme, List.all_eq_true]
+  simp only [List.all_eq_true]
   intro w hw
   obtain ⟨it, hit, rfl⟩ := List.mem_map.mp hw
+  obtain ⟨entries, hme, hnd, hin⟩ := hent e he it hit
+  simp only [hvd, Option.bind_some, hme]
   obtain ⟨hwf, hto⟩ := hok e he it hit
   have hdec : decodeValue (enc it.toCbor) = some it.toCbor := by
     unfold decodeValue
     have := Cbor.decode_enc_append it.toCbor [] hwf
     rw [List.append_nil] at this
     rw [this]; simp [hto]
-  have hfind := find_key_of_nodup entries _ _ hnd (hin it hit)
+  have hfind := find_key_of_nodup entries _ _ hnd hin
   simp only [wireItem, tag24, hdec, fget_item_digestID]
   rcases ofInt_int it.digestId with ⟨n, hn⟩ | ⟨n, hn⟩
   · simp only [hn] at hfind ⊢
@@ -185,28 +186,31 @@ theorem ex_hash : hashWith (ResponseFacts.tx "SHA-256") = Sha2.sha256 := by
   have h2 : (ResponseFacts.tx "SHA-256" == ResponseFacts.tx "SHA-512") = false := by decide +kernel
   simp [hashWith, h1, h2]
 
-example : digestsMatch exDoc exMso = true := by
-  apply C09_issued_passes_reader_digest_check exDoc exMso
-    (.map [(ResponseFacts.tx "nameSpaces", .map [(.text [110], .array [wireItem exItem])])])
-    (.map [(.text [110], .map [(.uint 9, .bytes []), digestEntry Sha2.sha256 exItem])]) [([110], [exItem])]
-  · rfl
-  · rfl
-  · rfl
-  · intro e he
-    simp only [List.mem_singleton] at he
-    subst he
-    refine ⟨[(.uint 9, .bytes []), digestEntry Sha2.sha256 exItem], rfl, by simp [digestEntry, exItem, ofInt], ?_⟩
-    intro it hit
-    simp only [List.mem_singleton] at hit
-    subst hit
-    rw [exMso_alg, ex_hash]
-    simp
-  · intro e he it hit
-    simp only [List.mem_singleton] at he
-    subst he
-    simp only [List.mem_singleton] at hit
-    subst hit
-    refine ⟨by simp [Item.toCbor, exItem, wf, wfPairs, Issuance.tx, ofInt, asciiBytes], by decide +kernel⟩
+def exIs : Cbor := .map [(ResponseFacts.tx "nameSpaces", .map [(.text [110], .array [wireItem exItem])])]
+def exVd : Cbor := .map [(.text [110], .map [(.uint 9, .bytes []), digestEntry Sha2.sha256 exItem])]
+
+theorem ex_hent : ∀ e ∈ [(([110] : Bytes), [exItem])], ∀ it ∈ e.2, ∃ entries, mget exVd (.text e.1) = some (.map entries) ∧
+    (entries.map (·.1)).Nodup ∧ digestEntry (hashWith ((fget exMso "digestAlgorithm").getD (.simple 22))) it ∈ entries := by
+  intro e he
+  simp only [List.mem_singleton] at he
+  subst he
+  intro it hit
+  simp only [List.mem_singleton] at hit
+  subst hit
+  refine ⟨[(.uint 9, .bytes []), digestEntry Sha2.sha256 exItem], rfl, by simp [digestEntry, exItem, ofInt], ?_⟩
+  rw [exMso_alg, ex_hash]
+  simp
+
+theorem ex_hok : ∀ e ∈ [(([110] : Bytes), [exItem])], ∀ it ∈ e.2, wf it.toCbor ∧ textOk it.toCbor = true := by
+  intro e he it hit
+  simp only [List.mem_singleton] at he
+  subst he
+  simp only [List.mem_singleton] at hit
+  subst hit
+  refine ⟨by simp [Item.toCbor, exItem, wf, wfPairs, Issuance.tx, ofInt, asciiBytes], by decide +kernel⟩
+
+example : digestsMatch exDoc exMso = true :=
+  C09_issued_passes_reader_digest_check exDoc exMso exIs exVd [([110], [exItem])] rfl rfl rfl ex_hent ex_hok
 
 end IssuedPassesReader
 
